@@ -131,7 +131,9 @@ func parseRaceReports(txt string) (sigs []string, details map[string]string, har
 		}
 		a, ha := canonFrame(stacks[0])
 		b, hb := canonFrame(stacks[1])
-		inAuth := func(s string) bool { return strings.HasPrefix(s, "internal") || strings.HasPrefix(s, "config/") || strings.HasPrefix(s, "cmd/") }
+		inAuth := func(s string) bool {
+			return strings.HasPrefix(s, "internal") || strings.HasPrefix(s, "config/") || strings.HasPrefix(s, "cmd/")
+		}
 		if ha && hb && !inAuth(a) && !inAuth(b) {
 			harness = append(harness, rep)
 			continue
